@@ -34,7 +34,7 @@ import (
 //
 // What is judged (statement, both sentences):
 //   * a packet that no rule allows and whose tuple was never allowed passes            -> violation (per-tuple)
-//   * ... whose flow has been idle longer than timeout + 2 wheel ticks (+ cache period) -> violation (expiry)
+//   * ... whose flow has been idle longer than its timeout                               -> violation (expiry)
 //   * ... whose flow was already refused as expired and not re-allowed since            -> violation (sentence 2)
 //   * ... whose flow has been idle for less than timeout (- cache period) is refused    -> violation (flow cut early)
 // In the band in between either answer is accepted and the reference follows the implementation.
@@ -372,7 +372,11 @@ func (w *c18World) violation(sig string, extra map[string]any) {
 	w.c.Violation("conntrack: "+sig, d)
 }
 
-func (w *c18World) slack() int64 { return 2*w.cfg.tick() + w.cfg.Cache }
+// slack is what the reference grants above the timeout before an idle flow MUST be refused. It used to be two wheel ticks
+// plus the cache period (the wheel's rounding); since Firewall.inConns compares Expires with the clock on every lookup
+// (fix 990b7dd) the implementation is exact and nothing is granted: a routine-cache hit implies a pass of the same flow
+// within the last cache period (< every timeout), so the caches add no slack either.
+func (w *c18World) slack() int64 { return 0 }
 
 func (w *c18World) packet(i int) {
 	pk := &w.alpha[i]
@@ -478,10 +482,10 @@ func (w *c18World) packet(i int) {
 			}
 			if pass {
 				if fl.churn == 0 {
-					w.violation("an expired flow is honoured: idle longer than timeout + 2 wheel ticks, no other flow inserted since", detail)
+					w.violation("an expired flow is honoured: idle longer than its timeout, no other flow inserted since", detail)
 				} else {
 					detail["other_flows_inserted_since"] = fl.churn
-					w.violation("an expired flow is honoured: idle longer than timeout + 2 wheel ticks, although other flows were inserted since", detail)
+					w.violation("an expired flow is honoured: idle longer than its timeout, although other flows were inserted since", detail)
 				}
 			} else if fl.churn > 0 {
 				st.expiredDropChurn++
@@ -599,7 +603,7 @@ func TestVerifC18(t *testing.T) {
 
 	c.Assume("observation point is Firewall.Drop on a firewall built by NewFirewall+AddRule (rules: outbound tcp/80, udp/53, icmp; inbound tcp/22; host any, local_cidr any); the packet parser and the tunnel are not in the loop")
 	c.Assume("'idle' is measured from the last packet of the flow that PASSED (in either direction); refused packets are not activity")
-	c.Assume("weak reading of the timeout boundary: a flow idle for exactly its timeout may be honoured or refused; it must be honoured when idle for less (minus the routine-cache period when that cache is on, because cache hits do not refresh the table), and must be refused when idle for more than timeout + 2 timer-wheel ticks (+ cache period) — the wheel's rounding (C33) is granted to the implementation")
+	c.Assume("weak reading of the timeout boundary: a flow idle for exactly its timeout may be honoured or refused; it must be honoured when idle for less (minus the routine-cache period when that cache is on, because cache hits do not refresh the table), and must be refused when idle for more than its timeout (no allowance for the timer wheel's rounding: the table entry's deadline is compared with the clock on every lookup)")
 	c.Assume("routine-local cache: one real ConntrackCacheTicker per direction (as listenIn / listenOut have), period below the smallest timeout; their ticker goroutines run on the virtual clock and the harness waits for each tick to be counted")
 	c.Assume("timeouts are a few virtual seconds (tick = smallest timeout); production values differ only in scale")
 
@@ -679,6 +683,40 @@ func TestVerifC18(t *testing.T) {
 		if c.OutOfTime() {
 			complete = false
 			break
+		}
+		// Second search on the same configuration: a narrow alphabet (three flows of the three protocol classes, replies, unit
+		// clock steps) searched much deeper. Histories such as "allow, refresh, refresh, unrelated inserts just before the deadline,
+		// probe after it" are 10+ events long and out of the wide search's depth; here they are inside the box.
+		if cfg.Cache == 0 {
+			var narrow []c18Ev
+			for i := range alpha {
+				switch alpha[i].Label {
+				case "A.out", "A.in", "B.out", "B.in", "C.out", "C.in":
+					narrow = append(narrow, c18Ev{'P', int64(i)})
+				}
+			}
+			narrow = append(narrow, c18Ev{'T', 1})
+			deep := mc.Pick(c, 14, 17)
+			rn := mc.BFSReplay(c, mc.BFSConfig[c18Ev]{
+				MaxDepth: deep,
+				Workers:  1,
+				Label:    label,
+				Stop:     c.OutOfTime,
+				Run: func(hist []c18Ev) (string, []c18Ev) {
+					w := c18NewWorld(c, cfg, alpha, st)
+					defer w.close()
+					for _, e := range hist {
+						w.apply(e)
+					}
+					return w.key(), narrow
+				},
+			})
+			fmt.Printf("INFO C18 %v narrow: states=%d transitions=%d depth=%d closed=%v t=%.1fs\n", cfg, rn.States, rn.Transitions, rn.MaxDepth, rn.Exhaustive, c.Elapsed())
+			perCfg[cfg.String()+" narrow alphabet"] = map[string]any{"states": rn.States, "transitions": rn.Transitions, "max_depth": rn.MaxDepth, "closed": rn.Exhaustive, "events": len(narrow)}
+			if c.OutOfTime() {
+				complete = false
+				break
+			}
 		}
 	}
 	c.Set("per_config", perCfg)
